@@ -64,6 +64,12 @@ def opsCore (op : String) (a : List String) : Option String :=
     match cellToChildrenSize h r with
     | .error e => pure ("err " ++ toString e.code)
     | .ok _ => pure ("ok " ++ showHs (cellToChildren h r))
+  | "iterhead", [h, r, n] => do
+    let h ← parseH h
+    let r ← parseInt r
+    let n ← parseInt n
+    let lim := if n < 0 then 0 else if n > 100000 then 100000 else n.toNat
+    pure ("ok " ++ showHs (childrenFuel (iterInitParent h r) lim))
   | "cpos", [h, r] => do
     let h ← parseH h
     let r ← parseInt r
